@@ -196,7 +196,8 @@ pub fn find<'o>(value: &'o dyn ValueView, path: &[ScalarCow<'_>]) -> Result<Valu
     if let Some(res) = try_find(value, path) {
         Ok(res)
     } else {
-        for cur_idx in 1..path.len() {
+        // down to the empty prefix (`value` itself), which always resolves
+        for cur_idx in 1..=path.len() {
             let subpath_end = path.len() - cur_idx;
             let subpath = &path[0..subpath_end];
             if let Some(parent) = try_find(value, subpath) {
